@@ -23,7 +23,8 @@ RULE = ("state = fingerprint of all mutable state a call could leave behind (eve
         "(fresh forked process), every two-step history over the whole alphabet, every three-step history over the operations "
         "that receive shared mutable arguments (thorough: every three-step history over the whole alphabet and every four-step history made of two shared-argument operations followed by two of the twelve operations listed in D4_TAIL_OPS); each step's result is compared with the same operation in isolation and the "
         "pool part of the fingerprint with the pristine one (a change of library-internal state is recorded as a new state, not alarmed on); results that the library returns as containers are scribbled on by the harness after each step, and the pool holds twin inputs (same graph, other kinds; same values, permuted source names) so that aliasing or under-keyed caches change a later answer; states = distinct fingerprints seen, transitions = operation executions judged; "
-        "non-trivial = history of length >= 2")
+        "non-trivial = history of length >= 2"
+        ' Additions: pool-wide exemption lists, value / ground / reference twins, failure-path operations (C = 0, L = 0, infinite answers), NumPy error state in the fingerprint, time axis starting at 0.25.')
 ASSUMPTIONS = ["the fingerprint covers all reachable Python-level mutable state of the library and the pool; C-level state of numpy/scipy is trusted",
                "each history starts in a freshly forked child of a parent that imported the library and built the pool but called nothing"]
 EXPLANATION = ("explicit-state search over real calls: if every operation returns to the pristine fingerprint with its isolated result, the "
